@@ -421,7 +421,7 @@ def standard_check(mod, tier, seed):
         broken.append(("translator", e.what + ": " + first_error(e.log)))
 
     # 2. theorems
-    ok, log = coq_build([mod.PROPS[:-2] + ".vo"], clean=(tier == "thorough" and os.environ.get("VERIF_NO_CLEAN") is None))
+    ok, log = coq_build([mod.PROPS[:-2] + ".vo"], clean=(tier == "thorough" and os.environ.get("VERIF_CLEAN") == "1"))
     info = parse_assumptions(mod.PROPS, log)
     rep.cov["obligations"] = len(info["theorems"])
     rep.cov["theorems"] = info["theorems"]
